@@ -51,7 +51,9 @@ def install_decoders(it):
         c = Contract(qual)
         c.requires = [('observe', 'ghost_set("decoded_from", %s) is None' % param)]
         c.result_expr = 'fresh_instance("%s")' % key
-        c.raises = [(e, None, False) for e in ALLOWED]
+        # one representative of the three exception classes a decoder may raise: the framing code treats
+        # them alike (which classes may escape is C12's obligation)
+        c.raises = [(ALLOWED[-1], None, False)]
         by_qual.setdefault(qual, {})[c01.class_of(it, key)] = c
     for qual, per_cls in by_qual.items():
         def chooser(it2, fv, args, kwargs, per_cls=per_cls):
@@ -220,6 +222,16 @@ def register(ctx, it, only_run=False, res=None):
         install_io(p, sock, label, state)
         p.ghost['readable'] = False
         p.ghost['decoded_from'] = None
+        # checked at the moment a second event is queued (the primitive slot holds one PDU)
+        evq = provider.fields['event']
+        real_append = evq.cls.lookup('append')[0]
+
+        def q_append(it2, a, kw):
+            if len(events_of(provider)) >= 1:
+                ob('at-most-one-event-per-call', False)
+                raise PathEnd('a second event was queued in one call: reported, path not followed further')
+            return real_append.fn(it2, a, kw)
+        evq.cls = ClassVal('deque', [evq.cls], {'append': nego_method(q_append)}, 'harness')
         try:
             r = it.call(it.getattr(provider, '_check_network'), [], {})
         except Raised as e:
@@ -314,6 +326,9 @@ def register(ctx, it, only_run=False, res=None):
         real_append = evq.cls.lookup('append')[0]
 
         def q_append(it2, a, kw):
+            if events_of(provider):
+                ob('one-event-at-a-time', False)
+                raise PathEnd('an event was queued while another one is pending: reported, path not followed further')
             g['pairs'].append((a[1], provider.fields.get('primitive')))
             return real_append.fn(it2, a, kw)
         evq.cls = ClassVal('deque', [evq.cls], {'append': nego_method(q_append)}, 'harness')
